@@ -468,7 +468,7 @@ func runPipeline(c *simrun.Ctx) *simrun.Violation {
 	for p := 0; p < nProd; p++ {
 		n := 1 + t.Draw("frames", 4)
 		for k := 0; k < n && nFrames < maxFrames/2; k++ {
-			fp := &framePlan{id: nFrames, typ: t.Draw("type", len(corpus)), bcast: -1, handler: -1, handler2: -1}
+			fp := &framePlan{id: nFrames, typ: pickTypeIndex(t), bcast: -1, handler: -1, handler2: -1}
 			md := corpus[fp.typ].ProtoReflect().Descriptor()
 			fp.av = simval.Gen(t, md, cfg)
 			fp.foreign = t.Chance("foreign", 1, 3)
